@@ -250,6 +250,34 @@ def falsify(L, tree):
     return n
 
 
+def share_across(tree):
+    """in place: for every class that occurs at two or more positions under DIFFERENT parents, the later occurrences
+    become equal copies of the first (cousins, or a child of an ancestor and of its descendant); returns the number of
+    replaced nodes"""
+    first, n = {}, 0
+
+    def walk(node, top):
+        nonlocal n
+        for kv in node["kw"]:
+            v = kv[1]
+            if not v or not ("o" in v or "l" in v):
+                continue
+            kids = v["l"] if "l" in v else [v["o"]]
+            for i, k in enumerate(kids):
+                if k["cls"] in first and first[k["cls"]][0] is not node and first[k["cls"]][1] != k:
+                    k = json.loads(json.dumps(first[k["cls"]][1]))
+                    if "l" in v:
+                        v["l"][i] = k
+                    else:
+                        v["o"] = k
+                    n += 1
+                    continue            # (its subtree is the copy's)
+                first.setdefault(k["cls"], (node, k))
+                walk(k, False)
+    walk(tree, True)
+    return n
+
+
 def factory_part(ck, L, G, order, per_type):
     """conforming trees built through the public factory paths are the trees the constructors build (and validate, and
     are written as the same XML): legal falsy values - 0, 0.0, "" - included deterministically"""
@@ -268,6 +296,24 @@ def factory_part(ck, L, G, order, per_type):
                                               post_fraction_along={"f": "0.0"}, weight={"f": "0.0"}, delay=s_("0ms"))),
         ("property with empty value", c03.T_("Property", tag=s_(""), value=s_(""))),
         ("segment parent 0", c03.T_("SegmentParent", segments={"i": 0}, fraction_along={"f": "0.0"}))]
+    # DAG shapes (built as shared objects: equal subtrees are one object): one point as the distal of the soma and the
+    # proximal of the dendrite (cousins); one Property in the lists of two components (cousins) and of a network and its
+    # population (child of an ancestor and of its descendant); the same object twice in one list
+    p0, p1, p2 = P(x=0.0, y=0.0, z=0.0, diameter=10.0), P(x=10.0, y=0.0, z=0.0, diameter=10.0), P(x=20.0, y=0.0, z=0.0, diameter=2.0)
+    prop = c03.T_("Property", tag=s_("colour"), value=s_("0.5 0.5 0.5"))
+    cp = lambda x: json.loads(json.dumps(x))  # noqa
+    fixed += [
+        ("dag: one point shared by two segments", c03.T_("Morphology", id=s_("m"), segments={"l": [
+            c03.T_("Segment", id={"i": 0}, name=s_("soma"), proximal={"o": cp(p0)}, distal={"o": cp(p1)}),
+            c03.T_("Segment", id={"i": 1}, name=s_("dend"), parent={"o": c03.T_("SegmentParent", segments={"i": 0})},
+                   proximal={"o": cp(p1)}, distal={"o": cp(p2)})]})),
+        ("dag: one property in two components", c03.T_("NeuroMLDocument", id=s_("d"), iaf_cells={"l": [
+            c03.T_("IafCell", id=s_("iaf"), properties={"l": [cp(prop)]}, **c03.IAF)]}, pulse_generators={"l": [
+                c03.T_("PulseGenerator", id=s_("pg"), delay=s_("10ms"), duration=s_("50ms"), amplitude=s_("0.2nA"), properties={"l": [cp(prop)]})]})),
+        ("dag: one property in a network and in its population", c03.T_("Network", id=s_("net"), properties={"l": [cp(prop)]}, populations={"l": [
+            c03.T_("Population", id=s_("p"), component=s_("c"), size={"i": 1}, properties={"l": [cp(prop)]})]})),
+        ("dag: the same property twice in one list", c03.T_("Population", id=s_("p"), component=s_("c"), size={"i": 1},
+                                                            properties={"l": [cp(prop), cp(prop)]}))]
     base = [{"tree": t, "tag": "probe_" + t["cls"], "doc": False, "type": t["cls"], "role": "factory-fixed:" + label, "falsy": -1}
             for label, t in fixed if t["cls"] in L.ct]
     for c in L.T.order:
@@ -280,6 +326,9 @@ def factory_part(ck, L, G, order, per_type):
         t = json.loads(json.dumps(b["tree"]))
         if b["role"].startswith("factory:") and duplicate_children(t):
             base.append(dict(b, tree=t, role="factory:equal-siblings"))
+        t = json.loads(json.dumps(b["tree"]))
+        if b["role"].startswith("factory:") and share_across(t):
+            base.append(dict(b, tree=t, role="factory:equal-cousins"))
     cases = []
     for b in base:
         for m in ("ctor",) + FACTORY_MODES:
